@@ -341,6 +341,14 @@ func c18Regressions() []c18Case {
 		// already exists" shortcut must not skip the per-component check (seeded change C18-1)
 		{Regress: "regress-incsym-populated", Sorted: true, Overwrite: "always", Tree: []*c18Node{deep()}, Include: []string{"/a/b/file"},
 			Pre: []c18Pre{{Path: "b", Kind: "outdir"}, {Path: "a", Kind: "symlink", Target: "@UP@outside"}}, Features: []string{"include", "presym", "presym-intermediate"}},
+		// a selected directory node WITHOUT subtree below unselected parents: the traversal fails
+		// before any directory is created, but the parents' metadata pass still ran - through the
+		// pre-existing symlink target/a (found by the seed-7 sweep; fixed in /repo)
+		{Regress: "regress-incsym-dir-without-subtree", Sorted: true, Overwrite: "always", Include: []string{"/a/b/a2"},
+			Tree: []*c18Node{{Name: "a", Type: "dir", Mode: 0o711, UID: 3900, GID: 3901, Mtime: 1400000000, Children: []*c18Node{
+				{Name: "b", Type: "dir", Mode: 0o733, UID: 3902, GID: 3903, Mtime: 1400001000, Children: []*c18Node{
+					{Name: "a2", Type: "dir", Mode: 0o777, UID: 3904, GID: 3905, Mtime: 1400002000, NoSubtree: true}}}}}},
+			Pre: []c18Pre{{Path: "a", Kind: "symlink", Target: "@BOX@/outside"}}, Features: []string{"include", "presym", "presym-intermediate"}},
 		// F4b: duplicate name: symlink x -> outside file, then regular file x with mode 0777
 		{Regress: "regress-dup-symlink-file", Sorted: true, Overwrite: "always", Features: []string{"dup"}, Tree: []*c18Node{
 			{Name: "x", Type: "symlink", Target: "@BOX@/outside/sentinel", Mtime: 1400000000},
@@ -598,7 +606,11 @@ func c18Run(t *testing.T, rec *kit.Rec, c c18Case) {
 	opts.Includes, opts.Excludes = c.Include, c.Exclude
 	var rerr error
 	rec.Guard("restore-panic", c, func() {
-		_, rerr = e.Restore(snapID.String(), opts)
+		var rout vOut
+		rout, rerr = e.Restore(snapID.String(), opts)
+		if os.Getenv("VERIF_C18_DEBUG") != "" {
+			t.Logf("DEBUG restore stderr: %s\nstdout: %s", rout.Stderr, rout.Stdout)
+		}
 	})
 	if rerr == nil {
 		rec.Count("restores_succeeded", 1)
